@@ -258,11 +258,15 @@ class extract_visitor(NodeVisitor):
         cur = self.flow
         body = self.visit_in_flow(node.body, self.make_flow('try', [cur]))
         handlers = []
+        matching = [cur, body]
         for h in node.handlers:
-            fh = self.make_flow('except', [cur, body])
+            fh = self.make_flow('except', matching)
             if h.type:
                 # evaluated after the exception: sees the bindings of the try body
+                # and of the types of the clauses tried before
                 fh = self.visit_in_flow(h.type, fh)
+                matching = [fh]
+            fh = self.make_flow('except-body', [fh])
             if h.name:
                 if PY2:
                     fh.add_name(AssignedName(h.name.id, get_first_body_node_loc(h.body), np(h), h.type))
